@@ -3378,6 +3378,7 @@ func (p *Posix) DeleteObject(ctx context.Context, input *s3.DeleteObjectInput) (
 			if err != nil {
 				return nil, fmt.Errorf("set delete marker: %w", err)
 			}
+			verifhook.At("posix.deleteobject.marker.set")
 
 			if !p.isBucketVersioningEnabled(vStatus) {
 				// the delete marker becomes the null version: it replaces
